@@ -815,7 +815,11 @@ impl Cached for ZooH {
             13 => zoo::simple_err::memo().boxed(),
             14 => zoo::empty_err::sexp().boxed(),
             15 => zoo::cheap_err::sexp().boxed(),
-            _ => zoo::simple_err::sexp().boxed(),
+            16 => zoo::simple_err::sexp().boxed(),
+            17 => zoo::pratt_vec().boxed(),
+            18 => zoo::empty_err::pratt_vec().boxed(),
+            19 => zoo::cheap_err::pratt_vec().boxed(),
+            _ => zoo::simple_err::pratt_vec().boxed(),
         }
     }
 }
@@ -843,7 +847,11 @@ pub fn with_zoo<'a, R>(z: usize, v: impl ZooVisitor<'a, R>) -> R {
         13 => v.visit(zoo::simple_err::memo),
         14 => v.visit(zoo::empty_err::sexp),
         15 => v.visit(zoo::cheap_err::sexp),
-        _ => v.visit(zoo::simple_err::sexp),
+        16 => v.visit(zoo::simple_err::sexp),
+        17 => v.visit(zoo::pratt_vec),
+        18 => v.visit(zoo::empty_err::pratt_vec),
+        19 => v.visit(zoo::cheap_err::pratt_vec),
+        _ => v.visit(zoo::simple_err::pratt_vec),
     }
 }
 
